@@ -509,6 +509,8 @@ class MainRun(Harness):
         if self.with_p:
             vals['oport'] = inp['dp']
         vals['skip_rate_test'] = True
+        if 'badport' in self.shape:
+            vals['json'] = 1          # a rejected targets file must not leave a half-opened JSON array on stdout either
         net = AE.FakeNet([])
         from props.c08 import StubConcurrent
         sc = StubConcurrent(list(range(len(self.shape))))
@@ -526,7 +528,11 @@ class MainRun(Harness):
                     del M.ssh_audit.__dict__['open']
         finally:
             sys.argv = old_argv
-        return {'ret': r, 'resolved': [(h, p) for h, p, _ in net.resolved], 'dialled': [c.connected_to for c in net.made]}
+        printed = buf.getvalue()
+        if zx.active():
+            for a, k in zx.cur().stdout:
+                printed += ''.join(x if isinstance(x, str) else '?' for x in a) + k.get('end', '\n')
+        return {'ret': r, 'resolved': [(h, p) for h, p, _ in net.resolved], 'dialled': [c.connected_to for c in net.made], 'stdout_opens_array': printed.lstrip().startswith('[') and 'badport' in self.shape}
 
     def check(self, inp, obs):
         r = obs['ret']
@@ -534,6 +540,7 @@ class MainRun(Harness):
             # a port outside 1..65535 anywhere in the targets file: rejected before ANY connection is made (no resolver call, no socket), not by an internal error
             yield 'bad-port-rejected-before-any-connection', obs['resolved'] == [] and obs['dialled'] == []
             yield 'bad-port-rejected-with-an-error-status-not-a-crash', (isinstance(r, Exc) and r.type == 'SystemExit') or (not isinstance(r, Exc) and r != 0)
+            yield 'no-dangling-json-array-bracket', not obs['stdout_opens_array']
             return
         yield 'run-completes', not isinstance(r, Exc)
         if isinstance(r, Exc):
